@@ -235,7 +235,7 @@ func c47bDiff(got, want c47bFlat) string {
 
 func TestVerif_C47_bal(t *testing.T) {
 	mc.Run(t, "C47", func(r *mc.R) {
-		r.Rule("snap/2 catch-up: 16 download layouts around account A (account range completed / cursor before, at, after the account / account = range end / storage completed / storage chunks with the slot fetched, pending, at a chunk end, beyond all chunks) x 6 flat pre-states x all single-block access lists over {balance, nonce, code, one slot} with 0-2 transactions per field (225) x 9 (layout, change) combinations for a second account in the other account range; " +
+		r.Rule("snap/2 catch-up: 16 download layouts around account A (account range completed / cursor before, at, after the account / account = range end / storage completed / storage chunks with the slot fetched, pending, at a chunk end, beyond all chunks) x 6 flat pre-states x all single-block access lists over {balance, nonce, code, one slot} with 0-2 transactions per field (225) x 4 (thorough 9) (layout, change) combinations for a second account in the other account range; " +
 			"applyAccessList result = full comparison of flat accounts, flat slots and codes; distinct = distinct (layout, pre-state, change) of account A")
 		r.Assume("reference = 'a change is applied to the flat state iff the account / slot was already downloaded' with the documented post-block (last transaction) values, EIP-161 empty-account rule and stale storage root; the fetched flags per layout are written down by hand, not computed by the code under test")
 
@@ -275,8 +275,10 @@ func TestVerif_C47_bal(t *testing.T) {
 			}
 		}
 		var sidesB []c47bSide
-		for _, l := range []string{"range-completed", "next-at-range-start", "chunk-next-just-after-slot"} {
-			for _, ch := range []c47bChange{{}, {Balance: []uint64{7}, Slot: []uint64{5}}, {Nonce: []uint64{9}}} {
+		bLayouts := mc.Pick(r, []string{"range-completed", "next-at-range-start"}, []string{"range-completed", "next-at-range-start", "chunk-next-just-after-slot"})
+		bChanges := mc.Pick(r, []c47bChange{{}, {Balance: []uint64{7}, Slot: []uint64{5}}}, []c47bChange{{}, {Balance: []uint64{7}, Slot: []uint64{5}}, {Nonce: []uint64{9}}})
+		for _, l := range bLayouts {
+			for _, ch := range bChanges {
 				sidesB = append(sidesB, c47bSide{l, c47bPre{"plain", true}, ch})
 			}
 		}
